@@ -83,6 +83,8 @@ structure DState where
   srcs : List (Nat × SrcInst) := []
   sinks : List (Nat × SkInst) := []
   pipes : List (Nat × PipeInst) := []
+  f64s : List (Nat × FInst Float) := []
+  f32s : List (Nat × FInst Float32) := []
   lineNo : Nat := 0
   caseNo : Nat := 0
   nOps : Nat := 0
@@ -492,8 +494,11 @@ def stepFilterOp (d : DState) (op : String) (toks impl : List String) : Option (
     let sel : List V → List V := match rest with
       | [k] => fun l => (l[k.toNat?.getD 0]?).toList
       | _ => id
-    let ra := renderOut (ia.last.bind (fun o => o.map sel))
-    let rb := renderOut (ib.last.bind (fun o => o.map sel))
+    -- both instances must have produced an output (otherwise the line is not a meaningful comparison)
+    let la ← ia.last
+    let lb ← ib.last
+    let ra := renderOut (la.map sel)
+    let rb := renderOut (lb.map sel)
     some (report d op { model := s!"{ra} | {rb}", impl := implS, kind := kindName ia.st,
                         clauses := [{ name := name, ok := ra == rb, expected := ra }] })
   | ["compose", "int-diff", id, x0, xn] => do
